@@ -9,7 +9,7 @@ from ..harness import Violation
 ID = "C15"
 LEVEL = "exploration"
 RULE = ("(a) in memory, metamorphic: Hypothesis-generated sessions run once with a transport that accepts everything and once with generated per-call write capacities "
-        "(1 byte .. unlimited, varying per call, the accepted count returned; also a transport returning None; also a write call that fails outright at a drawn call index: a call that then returns normally must not leave an incomplete message at the peer): the device-side byte stream must decode to the same packet sequence "
+        "(1 byte .. unlimited, varying per call, the accepted count returned; also a transport returning None; also one write call that fails outright -- drawn as a fraction of the session's write calls, and swept exhaustively over every write call of 6 fixed sessions x 5 short-write patterns x {timeout, broken pipe} x both APIs: a call that then returns normally must not leave an incomplete message at the peer): the device-side byte stream must decode to the same packet sequence "
         "and all results must be equal, or the call raised. (b) real loopback TCP: AdbDevice(TcpTransport)/AdbDeviceAsync(TcpTransportAsync) push 64 KiB..3 MiB to a socket server "
         "running the simulator with SO_RCVBUF=4096, a slow reader and client SO_SNDBUF=4096, transport_timeout_s set: content on the simulator == source (a raise is a violation here: the peer is healthy); plus 100 KB / 1 MiB written directly through TcpTransport / TcpTransportAsync with 4 KiB socket buffers to a slow reader: what bulk_write reported as written is what the peer has after close(). "
         "Non-trivial: >= 1 write call accepted fewer bytes than offered. Distinct = case hash.")
@@ -23,12 +23,25 @@ def mem_cases(draw):
         case["transport"]["ret_none"] = True
     elif draw(st.sampled_from([False, False, True])):
         # a write that fails outright in the middle of the session (possibly right after a short write of the same message)
-        case["transport"]["faults"] = {str(draw(st.integers(2, 60))): draw(st.sampled_from(["w_timeout", "w_pipe"]))}
+        # which write call fails is drawn as a fraction of the session's write calls (counted in a fault-free run), so that late calls -- e.g. the
+        # CLSE that ends a command -- are hit as often as early ones
+        case["transport"]["fault_frac"] = draw(st.floats(0, 0.999))
+        case["transport"]["fault_kind"] = draw(st.sampled_from(["w_timeout", "w_pipe"]))
     return case
 
 
 def check_faulted(case):
     """Short writes AND a failing write: a call may raise, but a call that returns normally must not leave a torn message at the peer."""
+    if "fault_frac" in case["transport"]:
+        # locate the failing write call from a fault-free run of the same session
+        tr = {k: v for k, v in case["transport"].items() if k not in ("fault_frac", "fault_kind")}
+        o0 = runner.run(dict(case, transport=tr))
+        widx = [c[4] for c in o0.core.calls if c[0] == "w"]
+        if widx:
+            tr["faults"] = {str(widx[min(len(widx) - 1, int(len(widx) * case["transport"]["fault_frac"]))]): case["transport"]["fault_kind"]}
+        else:
+            tr["faults"] = {"2": case["transport"]["fault_kind"]}
+        case = dict(case, transport=tr)
     pend = {}
 
     def before(out, i, op):
@@ -55,7 +68,7 @@ def check_faulted(case):
 
 
 def check_mem(case):
-    if case["transport"].get("faults"):
+    if case["transport"].get("faults") or "fault_frac" in case["transport"]:
         return check_faulted(case)
     base = dict(case)
     base["transport"] = dict(case["transport"], wcap=[], ret_none=False)
@@ -98,6 +111,38 @@ def check_mem(case):
     return None, info
 
 
+SWEEP_SESSIONS = [
+    [{"op": "shell", "cmd": "echo hi", "decode": True}, {"op": "shell", "cmd": "id", "decode": True}],
+    [{"op": "exec_out", "cmd": "cat /proc/version", "decode": False}, {"op": "shell", "cmd": "id", "decode": True}],
+    [{"op": "streaming_shell", "cmd": "logcat", "decode": True}, {"op": "shell", "cmd": "id", "decode": True}],
+    [{"op": "list", "path": "/sdcard"}, {"op": "stat", "path": "/sdcard/a"}, {"op": "shell", "cmd": "id", "decode": True}],
+    [{"op": "pull", "path": "/sdcard/a", "dest": "bytesio", "cb": None}, {"op": "shell", "cmd": "id", "decode": True}],
+    [{"op": "push", "src": {"kind": "bytesio", "content": {"pat": b"ab", "n": 9000}}, "path": "/sdcard/b", "mode": 0o100644, "mtime": 7, "cb": None}, {"op": "shell", "cmd": "id", "decode": True}],
+]
+SWEEP_WCAPS = [[], [10], [23], [1, 0], [0, 5]]
+
+
+def sweep_cases(shard, nshards):
+    """Every write call of a few fixed sessions fails once (timeout / broken pipe), under several short-write patterns, both APIs."""
+    out = []
+    k = 0
+    for api in ("sync", "async"):
+        for si, ops in enumerate(SWEEP_SESSIONS):
+            for wcap in SWEEP_WCAPS:
+                k += 1
+                if k % nshards != shard:
+                    continue
+                base = {"api": api, "device": {"maxdata": 4096, "fs": {b"/sdcard/a": {"content": {"pat": b"xyz", "n": 5000}}}, "dirs": {b"/sdcard": [(0o100644, 3, 4, b"a")]},
+                                               "stats": {b"/sdcard/a": (0o100644, 5000, 9)},
+                                               "services": {b"shell:echo hi": [b"hi\n"], b"shell:id": [b"uid=0", b"(root)\n"], b"exec:cat /proc/version": [b"Linux"], b"shell:logcat": [b"a\n", b"b\n", b"c\n"]}},
+                        "dev_tape": [], "transport": {"flavour": "raises", "wcap": wcap}, "connect": {}, "ops": ops}
+                o0 = runner.run(base)
+                for idx in [c[4] for c in o0.core.calls if c[0] == "w"]:
+                    for kind in ("w_timeout", "w_pipe"):
+                        out.append(dict(base, transport=dict(base["transport"], faults={str(idx): kind})))
+    return out
+
+
 def _s(x):
     r = repr(x)
     return r if len(r) < 300 else r[:300] + "..."
@@ -117,6 +162,7 @@ def run(tier, seed):
     t0 = time.time()
     quick = tier == "quick"
     col = harness.corpus_part(ID, "mem", check_mem)
+    col.merge(harness.enumeration_part("mem", sweep_cases, check_mem))
     col.merge(harness.hypothesis_part("mem", mem_cases(), check_mem, 4000 if quick else 100000, seed, shrink=not quick))
     try:
         from .. import sockcheck
